@@ -363,6 +363,34 @@ example : prodLevel T84 [⟨32, true⟩, ⟨48, true⟩, ⟨5, false⟩] [] = ([
     prod T84 [⟨32, true⟩, ⟨48, true⟩, ⟨16, true⟩] [] = ⟨96, true⟩ ∧
     prod T84 [⟨37, false⟩, ⟨37, false⟩, ⟨16, true⟩] [([1, 0, 1, 0], 5)] = ⟨85, false⟩ := by decide
 
+/-- "no intermediate product leaves the range" for the whole product tree: at every round all pairwise
+exact quotients are signed representatives -/
+def ProdFits (t : Ty) : Nat → List V → List Rnd → Prop
+  | 0, _, _ => True
+  | n + 1, xs, rs => (∀ a ∈ xs, ∀ b ∈ xs, Fits t.p (a.A * b.A / (2 : Int) ^ t.f)) ∧
+      ProdFits t n (prodLevel t xs rs).1 (prodLevel t xs rs).2
+
+theorem inv_prodF {t : Ty} (hodd : t.p % 2 = 1) : ∀ (fuel : Nat) (xs : List V) (rs : List Rnd),
+    FInvL t.f xs → ProdFits t fuel xs rs → FInvL t.f (prodF t fuel xs rs)
+  | 0, xs, _, h, _ => by simpa [prodF] using h
+  | fuel + 1, xs, rs, h, hf => by
+    unfold prodF
+    split
+    · exact h
+    · exact inv_prodF hodd fuel _ _ (inv_prodLevel hodd xs rs h hf.1) hf.2
+
+/-- **whole product tree** (`mpc.prod`): the result's flag is sound, for every randomness -/
+theorem inv_prod {t : Ty} (hodd : t.p % 2 = 1) (xs : List V) (rs : List Rnd) (h : FInvL t.f xs)
+    (hf : ProdFits t xs.length xs rs) : FInv t.f (prod t xs rs) := by
+  unfold prod
+  have := inv_prodF hodd xs.length xs rs h hf
+  cases hl : prodF t xs.length xs rs with
+  | nil => intro hfl; simp [List.headD] at hfl
+  | cons v vs => rw [hl] at this; simpa [List.headD] using this v (by simp)
+example : FInv 4 (prod T84 [⟨32, true⟩, ⟨48, true⟩, ⟨16, true⟩] []) ∧
+    ProdFits T84 3 [⟨32, true⟩, ⟨48, true⟩, ⟨16, true⟩] [] := by
+  refine ⟨inv_prod (by decide) _ _ (by decide) ?_, ?_⟩ <;> (simp only [ProdFits, List.length]; decide)
+
 /-- one round of `all` (the code raises ValueError unless every flag is set) -/
 theorem inv_allPairs {t : Ty} (hodd : t.p % 2 = 1) : ∀ (xs : List V), (∀ v ∈ xs, (2 : Int) ^ t.f ∣ v.A) →
     (∀ a ∈ xs, ∀ b ∈ xs, Fits t.p (a.A * b.A / (2 : Int) ^ t.f)) → ∀ v ∈ allPairs t xs, (2 : Int) ^ t.f ∣ v.A
